@@ -4,5 +4,6 @@ CONSTANTS
   G = {1, 2}
   SizeRange = {1, 2}
   CAS = TRUE
-  Emit = TRUE
+  Retries = 0
+  Emit = "all"
 INVARIANTS TypeOK ExactAtQuiescence
